@@ -49,6 +49,9 @@ def check_spec(ctx, spec):
         ctx.notes.append("construction rejected: " + repr(o.exc)[:200])
         return
     files = spec["figure"]["files"]
+    if spec["figure"].get("order"):
+        files = [files[i] for i in spec["figure"]["order"]]
+        ctx.count("docs_with_repeated_figure")
     fkw = spec["figure"].get("kw", {})
     k = len(files)
     lens = [len(v) if isinstance(v, list) else None for v in (fkw.get("fig_width"), fkw.get("fig_height"))]
